@@ -5,7 +5,7 @@ import lexgen
 
 PID = "C04"
 TARGETS = ["Run.vo", "Lexer_proofs.vo", "Grammar_proofs.vo", "NonVacuous/C04.vo", "Message_proofs2.vo"]
-IMPORTS = "From VF Require Import Base Show Gen_Errors Lexer Grammar Run."
+IMPORTS = "From VF Require Import Base Show Gen_Errors Lexer Grammar Response Conv Tree Scripted Run."
 ALLOWED_AXIOMS = []
 PROFILES = ["debug", "release"]
 RULE = ("four streams: (1) messages rendered from the IEEE 488.2 grammar AST (1-4 units; absolute/relative/common headers; "
@@ -52,7 +52,10 @@ def corpus():
 
 def long_cases(tier):
     import stress
-    return [mk("lex h " + hexs(m), None, "long") for n in stress.lens(tier) for m in stress.long_element_messages(n) + stress.long_element_messages(n, tail=b";B 1")]
+    # what the lexer reports must also be what a command sees: handlers of every temperament (incl. ones that swallow a
+    # parameter error and go on) on the same stress messages, compared with the model on each message's outcome
+    tree = [mk(l, None, "tree") for l in stress.tree_stream(tier)]
+    return tree + [mk("lex h " + hexs(m), None, "long") for n in stress.lens(tier) for m in stress.long_element_messages(n) + stress.long_element_messages(n, tail=b";B 1")]
 
 
 def generate(rng, tier):
@@ -102,6 +105,9 @@ def case_of_line(l): return mk(l)
 
 
 def coq_term(c):
+    if c["line"].startswith("tree "):
+        import treegen
+        return treegen.coq_term(c["line"])
     f = c["line"].split(" ")
     if c.get("ast") is not None:
         return "run_lexspec %s %s" % (lexgen.coq_msg(c["ast"]), coq_bytes(unhex(f[2])))
@@ -110,6 +116,8 @@ def coq_term(c):
 
 def obs(s):
     """tokens exactly; an error only by its class (command error = -1xx)"""
+    if " hook=" in s:        # a tree case: the outcome of each message and what its handlers were handed
+        return " | ".join(" ".join(m.split(" ")[i] for i in (0, 4) if i < len(m.split(" "))) for m in s.split(" | "))
     out = []
     for t in s.split(" "):
         if t.startswith("E-") and len(t) == 5:
@@ -122,6 +130,7 @@ def impl_oracle(c, r):
     if r is None: return "no result from harness"
     if r.startswith("PANIC") or "HANG" in r: return "tokenizer panicked or did not terminate (C01)"
     if r.startswith("CRASH") or r.startswith("NOT-RUN"): return "harness process died on this case"
+    if c["line"].startswith("tree "): return None
     if c["expect"] is not None and r != c["expect"]:
         return "well-formed message not decomposed as IEEE 488.2 section 7 prescribes (expected: %s)" % c["expect"][:300]
     for t in r.split(" "):
@@ -139,7 +148,7 @@ def distribution(cases, impl):
     err = {}
     for c, r in zip(cases, impl):
         d[c["kind"]] = d.get(c["kind"], 0) + 1
-        if r:
+        if r and c["kind"] != "tree":
             last = r.split(" ")[-1]
             if last.startswith("E"):
                 err[last] = err.get(last, 0) + 1
